@@ -150,7 +150,7 @@ func c16Req(p c16Prog, shared bool) Req {
 }
 
 func checkC16(c *Ctx) {
-	c.rule = "(a) sequential isolation: probe battery Q (programs touching every predefined value, the library functions and a synthetic library type) is run in a pristine worker process (one fresh process per probe) and then, in one process, after polluter sequences P1..Pn (every mutating operation applicable to predefined / library values: 自增/自减 on 数值, constructor redefinition of 异常 and of a library type, method/property writes on predefined values, redefinitions, abandoned call stacks, imports, declarations, mutation of library instances; the same through input-variable texts and through the playground HTTP handler, whose VarInput is evaluated by ExecVarInputText), with a shared Interpreter / handler object and with fresh ones; every probe outcome (result, display, error text) must equal its pristine outcome. All single polluters x all probes exhaustively, random sequences of 2..8 polluters. (a2) descriptor conservation: a probe counting the process's open file descriptors never counts more after executions that load a main file and 40 modules than before. (b) concurrent isolation: see the race harness part of the rule below. distinct_nontrivial = distinct (polluter sequence, probe, interpreter sharing mode)"
+	c.rule = "(a3) a site (main file, module, nested module) executed repeatedly in one process while its files are replaced with a newer / the same / an older modification time and the same / another size: every execution yields what its own files say; (a) sequential isolation: probe battery Q (programs touching every predefined value, the library functions and a synthetic library type) is run in a pristine worker process (one fresh process per probe) and then, in one process, after polluter sequences P1..Pn (every mutating operation applicable to predefined / library values: 自增/自减 on 数值, constructor redefinition of 异常 and of a library type, method/property writes on predefined values, redefinitions, abandoned call stacks, imports, declarations, mutation of library instances; the same through input-variable texts and through the playground HTTP handler, whose VarInput is evaluated by ExecVarInputText), with a shared Interpreter / handler object and with fresh ones; every probe outcome (result, display, error text) must equal its pristine outcome. All single polluters x all probes exhaustively, random sequences of 2..8 polluters. (a2) descriptor conservation: a probe counting the process's open file descriptors never counts more after executions that load a main file and 40 modules than before. (b) concurrent isolation: see the race harness part of the rule below. distinct_nontrivial = distinct (polluter sequence, probe, interpreter sharing mode)"
 	c.assumptions = []string{"the worker registers a synthetic library (a type with collection defaults and a method) through the public SetExternalLibs API because the libraries that build on this platform export only functions", "probes never call 取随机数 for its value"}
 	rng := c.Rand("c16")
 	pol := c16Polluters()
@@ -228,7 +228,66 @@ func checkC16(c *Ctx) {
 	c.Sample(map[string]interface{}{"polluters": []string{pol[0].name, pol[6].name}, "probe": probes[0].name, "pristine_outcome": clip(pristine[0], 100)})
 	c.Sample(map[string]interface{}{"polluter_program": pol[6].src, "probe_program": probes[4].src, "pristine_outcome": clip(pristine[4], 100)})
 	c16Descriptors(c)
+	c16SourcesReplaced(c)
 	checkC16Concurrent(c)
+}
+
+// c16SourcesReplaced: an execution runs the source files as they are when it starts. One process
+// executes a site (main file + module + nested module) again and again while the files are replaced
+// between the executions - with a newer, the same and an older modification time, with the same and
+// a different size: every execution must yield what its own files say, i.e. what a fresh process
+// yields for them. (Whatever an earlier execution read or remembered must not stand in for them.)
+func c16SourcesReplaced(c *Ctx) {
+	type ver struct {
+		tag   string
+		mtime int64
+	}
+	t0 := int64(1700000000)
+	scripts := map[string][]ver{
+		"same-mtime":       {{"甲", t0}, {"乙", t0}, {"丙", t0}},
+		"older-mtime":      {{"v2", t0}, {"v1", t0 - 86400}, {"v0", t0 - 2*86400}},
+		"newer-mtime":      {{"一", t0}, {"二", t0 + 5}, {"三", t0 + 86400}},
+		"rollback":         {{"旧", t0}, {"新", t0 + 100}, {"旧", t0}, {"新", t0 + 100}},
+		"same-size-same-mtime": {{"aa", t0}, {"bb", t0}, {"aa", t0}, {"cc", t0}},
+		"mixed":            {{"p", t0}, {"q", t0 - 1}, {"r", t0 + 1}, {"s", t0}, {"p", t0}},
+	}
+	for _, shared := range []bool{false, true} {
+		for _, name := range SortedKeys(scripts) {
+			vs := scripts[name]
+			batch := []Req{}
+			want := []string{}
+			for _, v := range vs {
+				files := []File{
+					{Path: "main.zn", Data: widen([]byte("导入“工具”\n输出【“主" + v.tag + "”，（取版本），（经手内层）】\n"))},
+					{Path: "工具.zn", Data: widen([]byte("导入“库-内层”\n如何取版本？\n\t输出 “" + v.tag + "”\n如何经手内层？\n\t输出（取内层）\n"))},
+					{Path: "库/内层.zn", Data: widen([]byte("如何取内层？\n\t输出 “内" + v.tag + "”\n"))},
+				}
+				batch = append(batch, Req{Op: "exec", Main: "main.zn", Files: files, Dir: name, Mtime: v.mtime, Shared: shared, EvalBudget: 100000, ParseBudget: 100000})
+				want = append(want, fmt.Sprintf("list[text(%q),text(%q),text(%q)]", "主"+v.tag, v.tag, "内"+v.tag))
+			}
+			for i := range batch {
+				batch[i].ID = i
+			}
+			req := Req{Op: "batch", Batch: batch}
+			resp := c.Pool.DoFresh(req)
+			if resp.Kind != "ok" || len(resp.Batch) != len(batch) {
+				c.Violation("sources:crash:"+name, fmt.Sprintf("site %s executed %d times with replaced files: worker outcome %s %s", name, len(batch), resp.Kind, clip(resp.Panic+resp.Stderr, 300)), map[string]interface{}{"req": req})
+				continue
+			}
+			for i, r := range resp.Batch {
+				c.Eval()
+				c.Count("executions_of_replaced_sources", 1)
+				got := r.Kind
+				if r.Kind == "value" && r.Val != nil {
+					got = r.Val.String()
+				}
+				c.Nontrivial(fmt.Sprintf("sources|%s|%d|%v|%s", name, i, shared, r.Kind))
+				if got != want[i] {
+					c.Violation(fmt.Sprintf("sources:%s:%d/%v", name, i, shared), fmt.Sprintf("site %q, execution %d of %d in one process (files replaced before it, modification time %d; shared interpreter: %v): yields %s, but its files say %s", name, i+1, len(batch), vs[i].mtime, shared, clip(r.Outcome(), 200), want[i]), map[string]interface{}{"reqs": []Req{req}, "expected": want[i]})
+				}
+			}
+		}
+	}
 }
 
 // c16Descriptors: what an execution opens it gives back. A probe that counts the process's open
